@@ -1,3 +1,5 @@
 import Hostd.Proto
-/-- stub driver for the `accounts` engine; replaced when the engine is built -/
-def main : IO Unit := IO.println "STATS lines=0 flagged=0"
+import Hostd.Drive.Accounts
+open Hostd
+def main : IO Unit := do
+  Proto.loop (← IO.getStdin) ({} : Drive.Accounts.DState) Drive.Accounts.step Drive.Accounts.stats
